@@ -8,6 +8,7 @@ import Driver.Golden
 import Driver.OsFs
 import Driver.Conc
 import Driver.Crash
+import Driver.Fault
 import Driver.ConcW
 open Driver
 
@@ -38,5 +39,6 @@ def main (args : List String) : IO UInt32 := do
   | ["fsdur"] => runStateless osfsLine; return 0
   | ["conc"] => runStateless (fun l => if l.startsWith "concw" then concwLine l else concLine l); return 0
   | ["crash"] => runStateful ({} : CrashSt) crashLine; return 0
+  | ["faultm"] => runStateful ({} : FaultSt) faultLine; return 0
   | ["segment"] => runStateful ({} : SegSt) segLine; return 0
   | _ => IO.eprintln "usage: driver <suite>"; return 2
